@@ -256,6 +256,13 @@ func runC06Driver(c *Ctx) {
 		}
 		e := memdb.New("fd")
 		e.CreateFenceLogTable()
+		// the application's business: one counter per phase, bumped inside the transaction the driver hands out
+		e.CreateTable(memdb.TableDef{Name: "biz", Cols: []memdb.Column{{Name: "id", Type: memdb.TBigInt}, {Name: "tries", Type: memdb.TBigInt}, {Name: "confirms", Type: memdb.TBigInt}, {Name: "cancels", Type: memdb.TBigInt}}, PK: []string{"id"}})
+		e.InsertRows("biz", memdb.Row{int64(1), int64(0), int64(0), int64(0)})
+		// what the fence has on record so far (for the tag only): a delivery the fence answers "nothing to do"
+		// — a second commit, a second rollback, a rollback before any try — cannot be told from a first one by an
+		// application that goes through the driver (known finding)
+		st, skipType := "", false
 		fenceDriverSeq++
 		name := fmt.Sprintf("verif-fence-%d", fenceDriverSeq)
 		sql.Register(name, &fence.FenceDriver{TargetDriver: e.Driver()})
@@ -291,8 +298,14 @@ func runC06Driver(c *Ctx) {
 				// every fifth sequence: the BUSINESS transaction of the first delivery cannot be committed (the
 				// first COMMIT the database sees is the business one): for the model a callback that fails
 				failing := i%5 == 2 && k == 0 && ph == 'P' // (a first try always runs its business: the model's failing callback)
+				switch {
+				case ph == 'C' && st == "committed", ph == 'R' && (st == "" || st == "rollbacked" || st == "suspended"):
+					skipType = true
+				}
 				tx, err := db.BeginTx(ctx, nil)
 				if err == nil {
+					col := map[byte]string{'P': "tries", 'C': "confirms", 'R': "cancels"}[ph]
+					tx.ExecContext(ctx, "UPDATE biz SET "+col+" = "+col+" + 1 WHERE id = 1")
 					if failing {
 						e.AddFault(memdb.Fault{Kind: "commit", Nth: 1})
 					}
@@ -306,7 +319,14 @@ func runC06Driver(c *Ctx) {
 				for _, r := range e.Dump("tcc_fence_log") {
 					row = map[string]string{"1": "tried", "2": "committed", "3": "rollbacked", "4": "suspended"}[fmt.Sprint(r[3])]
 				}
-				results = append(results, res+":"+row)
+				if row != "-" {
+					st = row
+				}
+				counts := "?"
+				for _, r := range e.Dump("biz") {
+					counts = fmt.Sprintf("%v/%v/%v", r[1], r[2], r[3])
+				}
+				results = append(results, res+":"+row+":"+counts)
 				if failing && tx != nil {
 					toks = append(toks, fmt.Sprintf("1%cx", ph))
 				} else {
@@ -326,7 +346,12 @@ func runC06Driver(c *Ctx) {
 			class = "fence_driver_left_a_transaction_open"
 		}
 		c.Out.Oracle(cid, class == "", class, leak+crash)
-		c.Out.Tag(cid, fmt.Sprintf("nontrivial=%d", b2i(len(seq) > 1)))
+		tag := fmt.Sprintf("nontrivial=%d", b2i(len(seq) > 1))
+		if skipType {
+			tag += " known=fence_driver_cannot_say_skip"
+			c.Out.Count("fence-driver.with-a-delivery-to-skip")
+		}
+		c.Out.Tag(cid, tag)
 		c.Out.Count("fence-driver")
 	}
 }
